@@ -441,6 +441,40 @@ Definition guard_case_ok (c : guard_case) : bool :=
   let pass := guarded_pass nat valid (tapp (g_cand c)) (fun s n => tapp (nth s (g_restore c) []) n) in
   fix_model nat Nat.eqb pass (g_max_iter c) (g_start c) =? g_exp c.
 
+(* ---------------------------------------------------------------------------------------- *)
+(* fixes._orelse_preferred_as_body (the orientation heuristic of swap_if_else / early_return /
+   early_continue): it only looks at a summary of each branch. *)
+Record branch := mkBranch {
+  br_all_pass : bool;      (* all(isinstance(node, ast.Pass) for node in branch) *)
+  br_blocking : bool;      (* any(core.is_blocking(node) for node in branch) *)
+  br_branches : nat;       (* _count_branches(branch) = 1 + number of nested ifs *)
+  br_len : nat;            (* len(branch) *)
+  br_first_exit : bool     (* isinstance(branch[0], (Return, Continue, Break)) *)
+}.
+
+Definition orelse_preferred (body orelse : branch) : bool :=
+  if br_all_pass body then true
+  else if br_all_pass orelse then false
+  else if br_blocking body && negb (br_blocking orelse) then false
+  else if br_blocking orelse && negb (br_blocking body) then true
+  else if br_blocking orelse && br_blocking body && (2 * br_branches orelse <=? br_branches body) then true
+  else br_first_exit orelse && (3 <? br_len body).
+
+(* structural facts of a summary that comes from a real statement list *)
+Definition branch_wf (b : branch) : bool :=
+  (1 <=? br_len b) && (1 <=? br_branches b)
+  && (negb (br_first_exit b) || br_blocking b)                       (* an exit statement blocks *)
+  && (negb (br_all_pass b) || (negb (br_blocking b) && negb (br_first_exit b) && (br_branches b =? 1))).
+(* no statement follows a leading return/continue/break (delete_unreachable_code runs earlier in
+   every pass of _multi_run_fixes) *)
+Definition no_dead_code (b : branch) : bool :=
+  negb (br_first_exit b) || ((br_len b =? 1) && (br_branches b =? 1)).
+
+Record orient_case := mkOrient { oc_body : branch; oc_orelse : branch; oc_exp : bool }.
+Definition orient_case_ok (c : orient_case) : bool :=
+  Bool.eqb (orelse_preferred (oc_body c) (oc_orelse c)) (oc_exp c)
+  && branch_wf (oc_body c) && branch_wf (oc_orelse c).
+
 Fixpoint bad_idx_from {X} (ok : X -> bool) (i : nat) (l : list X) : list nat :=
   match l with
   | [] => []
